@@ -21,3 +21,6 @@ pub use edge::{Edge, EdgeFlags, EdgeRecord};
 pub use node::{Node, NodeFlags, NodeRecord};
 pub use property::{CompareOp, PropertyStorage};
 pub use store::LpgStore;
+// Verification hook: lets the out-of-tree harness build stores without backward adjacency.
+#[cfg(grafeodb_grafeo_verif)]
+pub use store::LpgStoreConfig;
